@@ -16,6 +16,9 @@
 (*      some, rtime, steps,         -- returned MacroStep (some = not None)*)
 (*      exc, eobj, eidx,            -- raised exception class ("" = none)  *)
 (*      log,                        -- chronological effect log (LogE)     *)
+(*      tp,                         -- what the sismic.testing predicates  *)
+(*                                     answer about the returned MacroStep *)
+(*                                     [ent, exi, fir, con, trs] (sets)    *)
 (*      opq,                        -- opaque: the chart's code carries no *)
 (*                                     probes (recorded runs of foreign    *)
 (*                                     charts): log-based clauses are off  *)
@@ -568,6 +571,22 @@ C14_sync(c, G, o) ==
                /\ o.post.time = o.clk
 
 -----------------------------------------------------------------------------
+(* C19, last sentence: the sismic.testing predicates agree with the macro step *)
+TpOf(steps) ==
+  LET sent == SelectSeq(FlattenSeq([k \in DOMAIN steps |-> steps[k].sent]), LAMBDA e : e.k = "i")
+  IN [ent |-> UNION {Range(steps[k].entered) : k \in DOMAIN steps},
+      exi |-> UNION {Range(steps[k].exited) : k \in DOMAIN steps},
+      fir |-> {<<sent[j].ev, 0>> : j \in DOMAIN sent} \cup {<<sent[j].ev, sent[j].par>> : j \in DOMAIN sent},
+      con |-> {steps[k].ev : k \in DOMAIN steps} \ {0},
+      trs |-> {steps[k].tr : k \in DOMAIN steps} \ {0}]
+
+C19_testing(c, G, o) ==
+  (IsExec(o) /\ Returned(o) /\ o.some /\ ~o.opq) =>
+    LET w == TpOf(o.steps) IN
+    /\ o.tp.ent = w.ent /\ o.tp.exi = w.exi /\ o.tp.con = w.con /\ o.tp.trs = w.trs
+    /\ o.tp.fir = {p \in w.fir : p[2] \in {0, 7}}
+
+-----------------------------------------------------------------------------
 (* The set of failing clauses, as <<property, clause>> pairs                *)
 Check(name, ok) == IF ok THEN {} ELSE {name}
 
@@ -618,6 +637,7 @@ Bad(c, G, o) ==
     Check(<<"C17", "copy">>, Rel("copy", o)),
     Check(<<"C18", "fork">>, Rel("fork", o)),
     Check(<<"C18", "undisturbed">>, Rel("undisturbed", o)),
+    Check(<<"C19", "testing">>, C19_testing(c, G, o)),
     Check(<<"C13", "frozen">>, C13_frozen(c, G, o)),
     Check(<<"C13", "onlyexec">>, C13_only_exec(c, G, o)),
     Check(<<"C13", "guards">>, C13_guards(c, G, o))
